@@ -20,6 +20,15 @@ S = {
  "C08_1": ("C08", "value/mod.rs ArrayValue::slice: items.len() hoisted before the left drain", "var arr[2..6] on 5 elements (len < right < len + left)", None, ""),
  "C08_2": ("C08", "mod.rs set_frame_into_focus: num > len instead of >=, then indexing", "frame switch N with N equal to the backtrace depth", None, ""),
  "C08_3": ("C08", "dap/transport.rs read_message: line[..15] case-insensitive compare", "a header line with a multi-byte character across byte 15", None, ""),
+ "C05_1": ("C05", "mod.rs ecx_update_location keeps the old frame number", "select frame k>0, then step_into/stepi, then read variables", None, ""),
+ "C05_2": ("C05", "unwind.rs UnwindContext::new: .debug_frame fallback looks the FDE up by the run-time pc", "a frame covered only by .debug_frame in an object loaded at a non-zero offset", None, ""),
+ "C05_3": ("C05", "register.rs DwarfRegisterMap::from: rdx/rcx swapped", "a value located in DW_OP_reg1/reg2 (optimized code)", None, ""),
+ "C16_1": ("C16", "call/mod.rs get_reg_for_no: argument 3 goes to r10", "a call with 4 or more arguments", None, ""),
+ "C16_2": ("C16", "call/mod.rs with_disabled_brkpts: early return on a rejected call skips re-enabling", "a rejected call, then continue", None, ""),
+ "C16_3": ("C16", "call/fmt.rs ALIGN_UNKNOWN constant", "vard on a value containing a bool/float (rustc >= 1.87 debuggee)", None, ""),
+ "C19_1": ("C19", "die_ref.rs valid_at: closed range check", "a stop exactly at the first address after a lexical block", None, ""),
+ "C19_2": ("C19", "register.rs DwarfRegisterMap::from: rsi/rdi swapped", "a value located in rsi or rdi (optimized code)", None, ""),
+ "C19_3": ("C19", "eval.rs into_raw_bytes: register piece read with the whole value's size", "a composite location with register pieces narrower than 8 bytes", None, ""),
  "C02_1": ("C02", "step.rs step_over_any: temporary breakpoints removed after the early returns", "a `next` interrupted by a signal or watchpoint", None, ""),
  "C02_2": ("C02", "breakpoint.rs new_watchpoint_companion: number always freshly allocated", "two watchpoints on locals of the same function", None, ""),
  "C02_3": ("C02", "mod.rs stepi: ecx_restore_frame() dropped", "stop at a breakpoint, select frame 1, stepi", None, ""),
